@@ -43,6 +43,13 @@ def _pure(case, viol, stats):
         stats["pure_values"] += 1
         if ks[ref].hex() != o[lib]:
             bad(lib, ks[ref], o[lib])
+    # what WelcomeSecret::encrypt really handed to the AEAD
+    for lib, ref in (("welcome_key_used", "welcome_key"), ("welcome_nonce_used", "welcome_nonce")):
+        if o.get(lib) is None:
+            raise RuntimeError("the Welcome AEAD call was not observed")
+        stats["pure_values"] += 1
+        if ks[ref].hex() != o[lib]:
+            bad(lib, ks[ref], o[lib])
     pub = kdfref.kem_derive_public_key(suite, ks["external_secret"])
     if pub is not None:
         stats["pure_values"] += 1
@@ -168,6 +175,15 @@ def _insitu(ev, viol, stats):
         bad("confirmation_tag_state", f"reference {tag.hex()} member {want['confirmation_tag']}")
     if pm["auth"].get("confirmation_tag") is not None and tag != pm["auth"]["confirmation_tag"]:
         bad("confirmation_tag_wire", f"reference {tag.hex()} wire {pm['auth']['confirmation_tag'].hex()}")
+    # the Welcome of this commit was encrypted under the reference welcome key and nonce
+    if ev.get("n_welcomes", 0) > 0 and not ev["external"]:
+        stats["insitu_welcome_epochs"] += 1
+        wk, wn = hit["welcome_key"].hex(), hit["welcome_nonce"].hex()
+        with_key = [s for s in ev.get("commit_seals", []) if s[0] == wk]
+        if not with_key:
+            bad("welcome_key_used", f"{ev['n_welcomes']} Welcome message(s) but no AEAD seal under the reference welcome key among {len(ev.get('commit_seals', []))} seals of the commit")
+        elif not any(s[1] == wn for s in with_key):
+            bad("welcome_nonce_used", f"reference {wn} used {with_key[0][1]}")
     for e in ev["exports"]:
         exp = kdfref.mls_exporter(suite, hit["exporter_secret"], H(e["label"]), H(e["context"]), e["len"])
         stats["insitu_values"] += 1
